@@ -233,7 +233,13 @@ func (m *Model) Check(op Op, res Result, faulted bool) (viol []string) {
 				bad("stat reported %s which was not asked for", k)
 			}
 			if m.State[k] == Absent {
-				bad("stat reported absent blob %s", k)
+				idx := -1
+				for i, pb := range m.Pool {
+					if pb.Ref.String() == k {
+						idx = i
+					}
+				}
+				bad("stat reported absent blob %s (blob #%d of the pool)", k, idx)
 			}
 			if int(sb.Size) != len(b.Data) {
 				bad("stat reported size %d for %s, true size %d", sb.Size, k, len(b.Data))
